@@ -132,7 +132,7 @@ Section Invariance.
   Lemma quad_node_affine p t0 t1 t2 :
     quad_node OpsR p (mv t0) (mv t1) (mv t2) = vaddR (rt (quad_node OpsR p t0 t1 t2)) (vscaleR (bsum p) (tr g)).
   Proof.
-    unfold quad_node, bsum, app.
+    unfold quad_node, bary_point, bsum, app.
     set (a := fQ OpsR (qp_l0 p)); set (b := fQ OpsR (qp_l1 p)); set (c := fQ OpsR (qp_l2 p)).
     assert (E : forall u0 u1 u2, vmultaddR (vmultaddR (vmultaddR vzeroR a u0) b u1) c u2
                  = vaddR (vaddR (vscaleR a u0) (vscaleR b u1)) (vscaleR c u2)) by (intros; v3).
